@@ -184,7 +184,62 @@ def bounded_serializer_cycles(tier, seed):
             "evaluations": n, "distinct_nontrivial": n, "exhaustive": False, "failures": failures}
 
 
-BOUNDED = [bounded_round_trips, bounded_serializer_cycles]
+def bounded_fresh_process_containers(tier, seed):
+    """converter hooks are registered lazily and are process-global: a class with a wire-key map that is reachable ONLY through one container
+    shape must still be converted with its map — each shape alone, in a fresh interpreter"""
+    import subprocess
+    import sys
+    import textwrap
+    shapes = {"Dict[str, C]": ("{'k': WIRE}", "Dict[str, C]"), "List[C]": ("[WIRE]", "List[C]"), "Optional[C]": ("WIRE", "Optional[C]"), "C": ("WIRE", "C"),
+              "List[Dict[str, C]]": ("[{'k': WIRE}]", "List[Dict[str, C]]"), "Dict[str, List[C]]": ("{'k': [WIRE]}", "Dict[str, List[C]]"),
+              "Dict[str, Dict[str, C]]": ("{'a': {'b': WIRE}}", "Dict[str, Dict[str, C]]"), "Optional[Dict[str, C]]": ("{'k': WIRE}", "Optional[Dict[str, C]]"),
+              "Dict[str, Optional[C]]": ("{'k': WIRE}", "Dict[str, Optional[C]]"), "List[List[C]]": ("[[WIRE]]", "List[List[C]]")}
+    n, failures = 0, []
+    for label, (value_expr, ann) in shapes.items():
+        for top_level in (False, True):
+            code = textwrap.dedent(f'''
+                import dataclasses, json, sys
+                from typing import Any, Dict, List, Optional
+                sys.path.insert(0, "/repo/src")
+                from pyopenapi_gen.core.cattrs_converter import structure_from_dict, unstructure_to_dict
+                @dataclasses.dataclass
+                class C:
+                    id_: str
+                    page_size: Optional[int] = None
+                    class Meta:
+                        key_transform_with_load = {{"id": "id_", "pageSize": "page_size"}}
+                        key_transform_with_dump = {{"id_": "id", "page_size": "pageSize"}}
+                @dataclasses.dataclass
+                class Holder:
+                    field_: {ann}
+                    class Meta:
+                        key_transform_with_load = {{"the-field": "field_"}}
+                        key_transform_with_dump = {{"field_": "the-field"}}
+                WIRE = {{"id": "x", "pageSize": 0}}
+                value = {value_expr}
+                if {top_level!r}:
+                    # a container at top level is encoded by the convenience serialiser (unstructure_to_dict is documented for dataclass instances)
+                    from pyopenapi_gen.core.utils import DataclassSerializer
+                    back = DataclassSerializer.serialize(structure_from_dict(value, {ann}))
+                    assert back == value, ("top-level", value, back)
+                else:
+                    doc = {{"the-field": value}}
+                    obj = structure_from_dict(doc, Holder)
+                    back = unstructure_to_dict(obj)
+                    assert back == doc, ("as a field", doc, back)
+                print("ok")
+            ''')
+            if top_level and label in ("C",):
+                continue
+            n += 1
+            p = subprocess.run([sys.executable, "-c", code], capture_output=True, text=True, timeout=120)
+            if p.returncode != 0 or "ok" not in p.stdout:
+                failures.append({"id": f"bounded:fresh-process:{'top-level' if top_level else 'field'}:{label}", "detail": (p.stderr or p.stdout)[-500:], "input": {"annotation": ann, "top_level": top_level}})
+    return {"function": "structure_from_dict / unstructure_to_dict: a dataclass with a wire-key map reachable only through one container shape, one fresh interpreter per shape",
+            "backend": "bounded", "bound": f"{len(shapes)} container shapes x (field of a mapped dataclass, top-level)", "evaluations": n, "distinct_nontrivial": n, "exhaustive": False, "failures": failures}
+
+
+BOUNDED = [bounded_round_trips, bounded_serializer_cycles, bounded_fresh_process_containers]
 
 
 def _w(idprefix):
